@@ -4,7 +4,7 @@
    supernormals every other all-ones-exponent pattern is NaN; without subnormals
    every zero-exponent pattern reads as (signed) zero. *)
 From Coq Require Import ZArith QArith Qabs Lia Bool List.
-From UV Require Import RoundSpec RoundNE PositMono2 PositVal CfloatSpec Num Ops Verdict PositFast.
+From UV Require Import RoundSpec RoundNE PositMono2 PositVal CfloatSpec Num Ops Verdict PositFast NativeJudge.
 Import ListNotations.
 Local Open Scope Z_scope.
 
@@ -191,16 +191,8 @@ Definition judge_cfloat (cfg : list Z) (op : Z) (args res : list Z) : verdict :=
   if Z.eqb op OP_from_f32 then (let e := cf_encode c (f32_decode a) in mkV (one && cf_accept c false e r) [e] true) else
   if Z.eqb op OP_from_int then (let e := cf_encode c (num_of_Q (inject_Z (int_decode true a b))) in mkV (one && cf_accept c false e r) [e] true) else
   if Z.eqb op OP_from_uint then (let e := cf_encode c (num_of_Q (inject_Z (int_decode false a b))) in mkV (one && cf_accept c false e r) [e] true) else
-  if Z.eqb op OP_to_f64 then
-    match da with
-    | NaN => mkV (match f64_decode r with NaN => true | _ => false end) [f64_encode NaN] true
-    | x => exact [f64_encode x] true
-    end else
-  if Z.eqb op OP_to_f32 then
-    match da with
-    | NaN => mkV (match f32_decode r with NaN => true | _ => false end) [f32_encode NaN] true
-    | x => exact [f32_encode x] true
-    end else
+  if Z.eqb op OP_to_f64 then judge_to_f64 da res else
+  if Z.eqb op OP_to_f32 then judge_to_f32 da res else
   if Z.eqb op OP_to_f64_rt then
     (* round trip through double returns the same encoding (NaN: any NaN; non-canonical zeros of
        a no-subnormal configuration: any zero of the same sign) *)
